@@ -325,7 +325,7 @@ def check_b4(F, lib, B4):
                 continue
             toks = set()
             for a in size_args:
-                toks |= pr.operand(a)
+                toks |= pr.operand(a, at=blk.i)
             dec = [c for c in calls_in(toks) if DECODE.search(c)]
             if not dec:
                 continue
